@@ -126,3 +126,24 @@ Theorem C04_r1cs_vars_sorted :
 Proof. exact step_sorted. Qed.
 Print Assumptions C04_r1cs_add_sorted.
 Print Assumptions C04_r1cs_vars_sorted.
+
+(* completeness half: whenever the documented meaning admits a value trace (all assertions hold) and
+   the builder did not panic, the emitted system is satisfiable with these inputs and exposes the
+   documented values.  Together with C04_r1cs_builder_sound: for every program over the core, the
+   emitted R1CS is satisfiable for given inputs and exposed values exactly when the documented
+   meaning admits a trace with them. *)
+Theorem C04_r1cs_builder_complete :
+  forall (F : Type) (zero one : F) (add mul sub : F -> F -> F) (opp : F -> F) (div : F -> F -> F) (inv : F -> F),
+  field_theory zero one add mul sub opp div inv (@eq F) ->
+  forall (eq_dec : forall x y : F, {x = y} + {x <> y}) (cst : Z -> F),
+  cst 0%Z = zero -> cst 1%Z = one -> cst 2%Z = add one one ->
+  forall (nbpub nbsec thr : nat) (prog : list op) (outs : list nat),
+  let st := b_compile F zero one add mul sub opp inv eq_dec cst nbpub nbsec thr prog outs in
+  b_err F st = false ->
+  forall vs0 fin : list F, length vs0 = (nbpub + nbsec)%nat ->
+  BuilderR1CSProps.trace_sem F zero one add mul sub opp div inv eq_dec cst prog vs0 fin ->
+  exists w : nat -> F, BuilderR1CSProps.good F zero one add mul w st /\
+    (forall i, i < nbpub + nbsec -> w (input_wire nbpub (length outs) i) = nth i vs0 zero) /\
+    (forall j o, nth_error outs j = Some o -> w (S (nbpub + j)) = nth o fin zero).
+Proof. exact compile_complete. Qed.
+Print Assumptions C04_r1cs_builder_complete.
